@@ -31,9 +31,14 @@ def _label(rng, spicy):
     return s
 
 
+SPICY_NAMES = [False]  # set per scenario by the property (names with blanks, markup and non-ASCII characters)
+
+
 def _name(rng, prefix, used):
     while True:
         n = prefix + "".join(rng.choice("ABCDEFGHIJKLMNOPQRSTUVWXYZ_") for _ in range(rng.randint(1, 5)))
+        if SPICY_NAMES[0] and rng.random() < 0.3:
+            n += rng.choice([" X", "&Y", "<Z", "\xe9", "'q", '"d', ">g", "\u0142", ".a-b"])
         if n not in used:
             used.add(n)
             return n
